@@ -125,6 +125,31 @@ fn extra_builders(tier: Tier) -> Vec<(String, DetBuilder)> {
         let m = model.unwrap();
         Ok(vec![("centroids".into(), arr2(m.centroids())), ("cluster_count".into(), fbs(m.cluster_count().iter()))])
     })));
+    v.push(("kmeans-incremental-large-batches".into(), Box::new(move || {
+        // batches long enough that an implementation would summarise them block-wise per worker
+        let x = big_blobs(27, 24_000, 3);
+        let params = KMeans::params_with_rng(4, rand_xoshiro::Xoshiro256Plus::seed_from_u64(2)).tolerance(1e-3);
+        let mut model: Option<KMeans<f64, L2Dist>> = None;
+        for chunk in x.axis_chunks_iter(ndarray::Axis(0), 6000) {
+            let ds = DatasetBase::from(chunk.to_owned());
+            model = Some(match params.fit_with(model.take(), &ds) {
+                Ok(m) => m,
+                Err(linfa_clustering::IncrKMeansError::NotConverged(m)) => m,
+                Err(e) => return Err(es(e)),
+            });
+        }
+        let m = model.unwrap();
+        Ok(vec![("centroids".into(), arr2(m.centroids())), ("cluster_count".into(), fbs(m.cluster_count().iter()))])
+    })));
+    v.push(("gmm-random-init-large".into(), Box::new(move || {
+        use linfa_clustering::GmmInitMethod;
+        let ds = DatasetBase::from(big_blobs(28, 9000, 2));
+        let m = GaussianMixtureModel::params_with_rng(2, rand_xoshiro::Xoshiro256Plus::seed_from_u64(7)).init_method(GmmInitMethod::Random).max_n_iterations(6).fit(&ds);
+        match m {
+            Ok(m) => Ok(vec![("weights".into(), fbs(m.weights().iter())), ("means".into(), arr2(m.means()))]),
+            Err(e) => Ok(vec![("fit-error".into(), format!("{e}"))]),
+        }
+    })));
     v.push(("gmm-large".into(), Box::new(move || {
         let ds = DatasetBase::from(big_blobs(8, nbig / 10, 3));
         let m = GaussianMixtureModel::params_with_rng(3, rand_xoshiro::Xoshiro256Plus::seed_from_u64(42)).n_runs(2).max_n_iterations(30).fit(&ds).map_err(es)?;
